@@ -13,6 +13,7 @@ import (
 	"path/filepath"
 	"sort"
 	"strings"
+	"sync"
 	"sync/atomic"
 	"time"
 
@@ -77,6 +78,26 @@ func (w *Work) Path(parts ...string) string {
 	return filepath.Join(append([]string{w.Dir}, parts...)...)
 }
 
+// Panic is a CLI invocation that ended in a Go panic: a violation of every property.
+type Panic struct {
+	Args   []string `json:"args"`
+	Stderr string   `json:"stderr"`
+}
+
+var (
+	panicMu sync.Mutex
+	panics  []Panic
+)
+
+// TakePanics returns (and forgets) the panics seen since the last call.
+func TakePanics() []Panic {
+	panicMu.Lock()
+	defer panicMu.Unlock()
+	p := panics
+	panics = nil
+	return p
+}
+
 // Result of one CLI invocation.
 type Result struct {
 	Stdout, Stderr string
@@ -118,6 +139,11 @@ func (w *Work) Run(extraEnv []string, args ...string) Result {
 	default:
 		res.Exit = -1
 		res.Stderr += "\nexec: " + err.Error()
+	}
+	if strings.Contains(res.Stderr, "panic:") && strings.Contains(res.Stderr, "goroutine ") {
+		panicMu.Lock()
+		panics = append(panics, Panic{Args: args, Stderr: trunc(res.Stderr)})
+		panicMu.Unlock()
 	}
 	if ctx.Err() != nil {
 		res.Exit = -2
